@@ -15,6 +15,11 @@ fn plans(_t: Tier) -> Vec<&'static str> {
 }
 
 fn alphabet(_plan: &str, v: &str, t: Tier) -> Alphabet {
+    if v == "m2" {
+        // two mutators: objects allocated by a mutator that is destroyed before the next
+        // collection, handed over to the surviving mutator
+        return Alphabet { sizes: vec![40, 264], sems: vec![Sem::Default], gc_kinds: vec![false, true], bursts: vec![], eph_chains: vec![], two_mutators: true, pins: false, cross_writes: true, fields: 1 };
+    }
     if !v.is_empty() {
         return Alphabet { sizes: vec![48], sems: vec![Sem::Default, Sem::from_name(v)], gc_kinds: vec![false, true], bursts: vec![(264, 100, 2)], eph_chains: vec![], two_mutators: false, pins: false, cross_writes: false, fields: 1 };
     }
@@ -22,7 +27,7 @@ fn alphabet(_plan: &str, v: &str, t: Tier) -> Alphabet {
 }
 
 fn depth(plan: &str, v: &str, t: Tier) -> usize {
-    if !v.is_empty() {
+    if !v.is_empty() || v == "m2" {
         return match (plan, t) {
             ("NoGC", _) => 2,
             ("MarkCompact", Tier::Quick) | ("PageProtect", Tier::Quick) => 3,
@@ -43,7 +48,7 @@ fn depth(plan: &str, v: &str, t: Tier) -> usize {
 /// "" = the main exploration (Default semantics, deepest); one further variant per non-default
 /// semantics (shallower), each in its own process.
 fn variants(_plan: &str, _t: Tier) -> Vec<&'static str> {
-    vec!["", "Immortal", "Los", "NonMoving"]
+    vec!["", "m2", "Immortal", "Los", "NonMoving"]
 }
 
 fn boot(plan: &str, _v: &str, _t: Tier) -> BootCfg {
@@ -64,7 +69,7 @@ fn nontrivial(f: &ProgFacts) -> bool {
 }
 
 fn filter(v: &str, p: &[Op]) -> bool {
-    v.is_empty() || p.iter().any(|o| matches!(o, Op::Alloc { sem, .. } if *sem != Sem::Default))
+    v.is_empty() || v == "m2" && p.iter().any(|o| matches!(o, Op::Bind1)) || p.iter().any(|o| matches!(o, Op::Alloc { sem, .. } if *sem != Sem::Default))
 }
 
 pub const PROFILE: Profile = Profile {
@@ -77,7 +82,7 @@ pub const PROFILE: Profile = Profile {
     owns,
     nontrivial,
     filter,
-    rule: "every program of length <= depth (main variant) over {alloc(40 B | 264 B | 80 KiB -> LOS) into the lowest empty root, write root.field <- root|null through the barrier, drop root, GC(normal), GC(exhaustive)(, bind/destroy second mutator: thorough)} per plan; plus one variant per non-default semantics S in {Immortal, Los, NonMoving} (own process, depth 4 quick / 5 thorough) over {alloc 48 B Default|S, burst(264 B x100 keep every 2nd), write root.f0, drop, GC x2}; each program followed by a closing exhaustive GC, run back to back on one real MMTK instance (1 GC worker) so later programs start from non-initial heap states; after every collection the real heap is walked from the real root slots and compared with the shadow heap. states = distinct canonical shadow heaps at program end; transitions = mutator operations executed; distinct_nontrivial = programs in which some collection found both live and dead objects",
+    rule: "every program of length <= depth (main variant) over {alloc(40 B | 264 B | 80 KiB -> LOS) into the lowest empty root, write root.field <- root|null through the barrier, drop root, GC(normal), GC(exhaustive)(, bind/destroy second mutator: thorough)} per plan; plus a two-mutator variant (alloc by either mutator, objects handed from the second mutator to the first, bind/destroy, cross-mutator writes, drop, GC x2; depth 4/5), plus one variant per non-default semantics S in {Immortal, Los, NonMoving} (own process, depth 4 quick / 5 thorough) over {alloc 48 B Default|S, burst(264 B x100 keep every 2nd), write root.f0, drop, GC x2}; each program followed by a closing exhaustive GC, run back to back on one real MMTK instance (1 GC worker) so later programs start from non-initial heap states; after every collection the real heap is walked from the real root slots and compared with the shadow heap. states = distinct canonical shadow heaps at program end; transitions = mutator operations executed; distinct_nontrivial = programs in which some collection found both live and dead objects",
     post: None,
     timeout_s: |t| t.pick(300, 3000),
 };
